@@ -69,6 +69,12 @@ impl GoAway {
     }
 
     pub fn go_away_now(&mut self, f: frame::GoAway) {
+        if self.close_now {
+            // The connection is already closing with an earlier GOAWAY, which
+            // may still be waiting to be written. A later one (e.g. the
+            // NO_ERROR sent when idle) must not replace its error code.
+            return;
+        }
         self.close_now = true;
         if let Some(ref going_away) = self.going_away {
             // Prevent sending the same GOAWAY twice.
@@ -81,6 +87,9 @@ impl GoAway {
     }
 
     pub fn go_away_from_user(&mut self, f: frame::GoAway) {
+        if self.close_now {
+            return;
+        }
         self.is_user_initiated = true;
         self.go_away_now(f);
     }
